@@ -329,4 +329,102 @@ theorem block8 (x0 x1 x2 x3 x4 x5 x6 x7 x8 x9 x10 x11 : UInt8) (rest after : Lis
   have h0 := x0.toNat_lt; have h1 := x1.toNat_lt; have h2 := x2.toNat_lt; have h3 := x3.toNat_lt; have h4 := x4.toNat_lt; have h5 := x5.toNat_lt; have h6 := x6.toNat_lt; have h7 := x7.toNat_lt; have h8 := x8.toNat_lt; have h9 := x9.toNat_lt; have h10 := x10.toNat_lt; have h11 := x11.toNat_lt
   and_intros <;> l3_nat
 
+/-! ### the tail switch of the 32-bit path in the `-DVALGRIND` configuration -/
+
+theorem tail32V_1 (x0 : UInt8) (after : List UInt8) (a b c : UInt32) :
+    addTerms ([x0] ++ after) (Gen.l3Tail32V.getD 1 []) (a, b, c) =
+      (a + le32 [x0] 0, b + le32 [x0] 4, c + le32 [x0] 8) := by
+  simp [Gen.l3Tail32V, addTerms, evalTerm, load, byteAt, le32]
+  have h0 := x0.toNat_lt
+  have g0 := (after[0]?.getD 0).toNat_lt; have g1 := (after[1]?.getD 0).toNat_lt; have g2 := (after[2]?.getD 0).toNat_lt
+  and_intros <;> l3_nat
+
+theorem tail32V_2 (x0 x1 : UInt8) (after : List UInt8) (a b c : UInt32) :
+    addTerms ([x0, x1] ++ after) (Gen.l3Tail32V.getD 2 []) (a, b, c) =
+      (a + le32 [x0, x1] 0, b + le32 [x0, x1] 4, c + le32 [x0, x1] 8) := by
+  simp [Gen.l3Tail32V, addTerms, evalTerm, load, byteAt, le32]
+  have h0 := x0.toNat_lt; have h1 := x1.toNat_lt
+  have g0 := (after[0]?.getD 0).toNat_lt; have g1 := (after[1]?.getD 0).toNat_lt; have g2 := (after[2]?.getD 0).toNat_lt
+  and_intros <;> l3_nat
+
+theorem tail32V_3 (x0 x1 x2 : UInt8) (after : List UInt8) (a b c : UInt32) :
+    addTerms ([x0, x1, x2] ++ after) (Gen.l3Tail32V.getD 3 []) (a, b, c) =
+      (a + le32 [x0, x1, x2] 0, b + le32 [x0, x1, x2] 4, c + le32 [x0, x1, x2] 8) := by
+  simp [Gen.l3Tail32V, addTerms, evalTerm, load, byteAt, le32]
+  have h0 := x0.toNat_lt; have h1 := x1.toNat_lt; have h2 := x2.toNat_lt
+  have g0 := (after[0]?.getD 0).toNat_lt; have g1 := (after[1]?.getD 0).toNat_lt; have g2 := (after[2]?.getD 0).toNat_lt
+  and_intros <;> l3_nat
+
+theorem tail32V_4 (x0 x1 x2 x3 : UInt8) (after : List UInt8) (a b c : UInt32) :
+    addTerms ([x0, x1, x2, x3] ++ after) (Gen.l3Tail32V.getD 4 []) (a, b, c) =
+      (a + le32 [x0, x1, x2, x3] 0, b + le32 [x0, x1, x2, x3] 4, c + le32 [x0, x1, x2, x3] 8) := by
+  simp [Gen.l3Tail32V, addTerms, evalTerm, load, byteAt, le32]
+  have h0 := x0.toNat_lt; have h1 := x1.toNat_lt; have h2 := x2.toNat_lt; have h3 := x3.toNat_lt
+  have g0 := (after[0]?.getD 0).toNat_lt; have g1 := (after[1]?.getD 0).toNat_lt; have g2 := (after[2]?.getD 0).toNat_lt
+  and_intros <;> l3_nat
+
+theorem tail32V_5 (x0 x1 x2 x3 x4 : UInt8) (after : List UInt8) (a b c : UInt32) :
+    addTerms ([x0, x1, x2, x3, x4] ++ after) (Gen.l3Tail32V.getD 5 []) (a, b, c) =
+      (a + le32 [x0, x1, x2, x3, x4] 0, b + le32 [x0, x1, x2, x3, x4] 4, c + le32 [x0, x1, x2, x3, x4] 8) := by
+  simp [Gen.l3Tail32V, addTerms, evalTerm, load, byteAt, le32]
+  have h0 := x0.toNat_lt; have h1 := x1.toNat_lt; have h2 := x2.toNat_lt; have h3 := x3.toNat_lt; have h4 := x4.toNat_lt
+  have g0 := (after[0]?.getD 0).toNat_lt; have g1 := (after[1]?.getD 0).toNat_lt; have g2 := (after[2]?.getD 0).toNat_lt
+  and_intros <;> l3_nat
+
+theorem tail32V_6 (x0 x1 x2 x3 x4 x5 : UInt8) (after : List UInt8) (a b c : UInt32) :
+    addTerms ([x0, x1, x2, x3, x4, x5] ++ after) (Gen.l3Tail32V.getD 6 []) (a, b, c) =
+      (a + le32 [x0, x1, x2, x3, x4, x5] 0, b + le32 [x0, x1, x2, x3, x4, x5] 4, c + le32 [x0, x1, x2, x3, x4, x5] 8) := by
+  simp [Gen.l3Tail32V, addTerms, evalTerm, load, byteAt, le32]
+  have h0 := x0.toNat_lt; have h1 := x1.toNat_lt; have h2 := x2.toNat_lt; have h3 := x3.toNat_lt; have h4 := x4.toNat_lt; have h5 := x5.toNat_lt
+  have g0 := (after[0]?.getD 0).toNat_lt; have g1 := (after[1]?.getD 0).toNat_lt; have g2 := (after[2]?.getD 0).toNat_lt
+  and_intros <;> l3_nat
+
+theorem tail32V_7 (x0 x1 x2 x3 x4 x5 x6 : UInt8) (after : List UInt8) (a b c : UInt32) :
+    addTerms ([x0, x1, x2, x3, x4, x5, x6] ++ after) (Gen.l3Tail32V.getD 7 []) (a, b, c) =
+      (a + le32 [x0, x1, x2, x3, x4, x5, x6] 0, b + le32 [x0, x1, x2, x3, x4, x5, x6] 4, c + le32 [x0, x1, x2, x3, x4, x5, x6] 8) := by
+  simp [Gen.l3Tail32V, addTerms, evalTerm, load, byteAt, le32]
+  have h0 := x0.toNat_lt; have h1 := x1.toNat_lt; have h2 := x2.toNat_lt; have h3 := x3.toNat_lt; have h4 := x4.toNat_lt; have h5 := x5.toNat_lt; have h6 := x6.toNat_lt
+  have g0 := (after[0]?.getD 0).toNat_lt; have g1 := (after[1]?.getD 0).toNat_lt; have g2 := (after[2]?.getD 0).toNat_lt
+  and_intros <;> l3_nat
+
+theorem tail32V_8 (x0 x1 x2 x3 x4 x5 x6 x7 : UInt8) (after : List UInt8) (a b c : UInt32) :
+    addTerms ([x0, x1, x2, x3, x4, x5, x6, x7] ++ after) (Gen.l3Tail32V.getD 8 []) (a, b, c) =
+      (a + le32 [x0, x1, x2, x3, x4, x5, x6, x7] 0, b + le32 [x0, x1, x2, x3, x4, x5, x6, x7] 4, c + le32 [x0, x1, x2, x3, x4, x5, x6, x7] 8) := by
+  simp [Gen.l3Tail32V, addTerms, evalTerm, load, byteAt, le32]
+  have h0 := x0.toNat_lt; have h1 := x1.toNat_lt; have h2 := x2.toNat_lt; have h3 := x3.toNat_lt; have h4 := x4.toNat_lt; have h5 := x5.toNat_lt; have h6 := x6.toNat_lt; have h7 := x7.toNat_lt
+  have g0 := (after[0]?.getD 0).toNat_lt; have g1 := (after[1]?.getD 0).toNat_lt; have g2 := (after[2]?.getD 0).toNat_lt
+  and_intros <;> l3_nat
+
+theorem tail32V_9 (x0 x1 x2 x3 x4 x5 x6 x7 x8 : UInt8) (after : List UInt8) (a b c : UInt32) :
+    addTerms ([x0, x1, x2, x3, x4, x5, x6, x7, x8] ++ after) (Gen.l3Tail32V.getD 9 []) (a, b, c) =
+      (a + le32 [x0, x1, x2, x3, x4, x5, x6, x7, x8] 0, b + le32 [x0, x1, x2, x3, x4, x5, x6, x7, x8] 4, c + le32 [x0, x1, x2, x3, x4, x5, x6, x7, x8] 8) := by
+  simp [Gen.l3Tail32V, addTerms, evalTerm, load, byteAt, le32]
+  have h0 := x0.toNat_lt; have h1 := x1.toNat_lt; have h2 := x2.toNat_lt; have h3 := x3.toNat_lt; have h4 := x4.toNat_lt; have h5 := x5.toNat_lt; have h6 := x6.toNat_lt; have h7 := x7.toNat_lt; have h8 := x8.toNat_lt
+  have g0 := (after[0]?.getD 0).toNat_lt; have g1 := (after[1]?.getD 0).toNat_lt; have g2 := (after[2]?.getD 0).toNat_lt
+  and_intros <;> l3_nat
+
+theorem tail32V_10 (x0 x1 x2 x3 x4 x5 x6 x7 x8 x9 : UInt8) (after : List UInt8) (a b c : UInt32) :
+    addTerms ([x0, x1, x2, x3, x4, x5, x6, x7, x8, x9] ++ after) (Gen.l3Tail32V.getD 10 []) (a, b, c) =
+      (a + le32 [x0, x1, x2, x3, x4, x5, x6, x7, x8, x9] 0, b + le32 [x0, x1, x2, x3, x4, x5, x6, x7, x8, x9] 4, c + le32 [x0, x1, x2, x3, x4, x5, x6, x7, x8, x9] 8) := by
+  simp [Gen.l3Tail32V, addTerms, evalTerm, load, byteAt, le32]
+  have h0 := x0.toNat_lt; have h1 := x1.toNat_lt; have h2 := x2.toNat_lt; have h3 := x3.toNat_lt; have h4 := x4.toNat_lt; have h5 := x5.toNat_lt; have h6 := x6.toNat_lt; have h7 := x7.toNat_lt; have h8 := x8.toNat_lt; have h9 := x9.toNat_lt
+  have g0 := (after[0]?.getD 0).toNat_lt; have g1 := (after[1]?.getD 0).toNat_lt; have g2 := (after[2]?.getD 0).toNat_lt
+  and_intros <;> l3_nat
+
+theorem tail32V_11 (x0 x1 x2 x3 x4 x5 x6 x7 x8 x9 x10 : UInt8) (after : List UInt8) (a b c : UInt32) :
+    addTerms ([x0, x1, x2, x3, x4, x5, x6, x7, x8, x9, x10] ++ after) (Gen.l3Tail32V.getD 11 []) (a, b, c) =
+      (a + le32 [x0, x1, x2, x3, x4, x5, x6, x7, x8, x9, x10] 0, b + le32 [x0, x1, x2, x3, x4, x5, x6, x7, x8, x9, x10] 4, c + le32 [x0, x1, x2, x3, x4, x5, x6, x7, x8, x9, x10] 8) := by
+  simp [Gen.l3Tail32V, addTerms, evalTerm, load, byteAt, le32]
+  have h0 := x0.toNat_lt; have h1 := x1.toNat_lt; have h2 := x2.toNat_lt; have h3 := x3.toNat_lt; have h4 := x4.toNat_lt; have h5 := x5.toNat_lt; have h6 := x6.toNat_lt; have h7 := x7.toNat_lt; have h8 := x8.toNat_lt; have h9 := x9.toNat_lt; have h10 := x10.toNat_lt
+  have g0 := (after[0]?.getD 0).toNat_lt; have g1 := (after[1]?.getD 0).toNat_lt; have g2 := (after[2]?.getD 0).toNat_lt
+  and_intros <;> l3_nat
+
+theorem tail32V_12 (x0 x1 x2 x3 x4 x5 x6 x7 x8 x9 x10 x11 : UInt8) (after : List UInt8) (a b c : UInt32) :
+    addTerms ([x0, x1, x2, x3, x4, x5, x6, x7, x8, x9, x10, x11] ++ after) (Gen.l3Tail32V.getD 12 []) (a, b, c) =
+      (a + le32 [x0, x1, x2, x3, x4, x5, x6, x7, x8, x9, x10, x11] 0, b + le32 [x0, x1, x2, x3, x4, x5, x6, x7, x8, x9, x10, x11] 4, c + le32 [x0, x1, x2, x3, x4, x5, x6, x7, x8, x9, x10, x11] 8) := by
+  simp [Gen.l3Tail32V, addTerms, evalTerm, load, byteAt, le32]
+  have h0 := x0.toNat_lt; have h1 := x1.toNat_lt; have h2 := x2.toNat_lt; have h3 := x3.toNat_lt; have h4 := x4.toNat_lt; have h5 := x5.toNat_lt; have h6 := x6.toNat_lt; have h7 := x7.toNat_lt; have h8 := x8.toNat_lt; have h9 := x9.toNat_lt; have h10 := x10.toNat_lt; have h11 := x11.toNat_lt
+  have g0 := (after[0]?.getD 0).toNat_lt; have g1 := (after[1]?.getD 0).toNat_lt; have g2 := (after[2]?.getD 0).toNat_lt
+  and_intros <;> l3_nat
+
 end AwsVerif.Proofs.C02
